@@ -848,3 +848,202 @@ Example C20_changed_deref_rejected :
   as_item (sem_func (drop_first_stmt (B "DerefItem") gen_pred_fns) (B "DerefItem") [VI (ITNil KObject)])
     = Ok (IItems false (Some [ITNil KObject])).
 Proof. repeat split; vm_compute; reflexivity. Qed.
+(* ---- PredTab.walk_views IS OnTab.visit: the two descriptions of the loop of OnObject over a list (b57's, written by
+   hand for the predicate interpreter; b49's, the specification the GENERATED bodies of Gen/OnT.v are proved equal to)
+   are one (Proofs/WalkViewsP.v) *)
+From AP.Proofs Require Import WalkViewsP.
+
+(* the two conditions on the tables of this run: ToObject of Gen/Conv.v (over Gen/Layout.v) answers a struct of each of
+   the 13 kinds that are no Link, value or pointer, with a pointer of kind Object exactly where Equal.cast_ok says so
+   (and with an error elsewhere), and an IRI that is not nil with an error; the loop of the generated OnObject passes
+   over nil members AND links *)
+(* diagnoses first: when object.go / helpers.go moved, these are the obligations that fail; the error message names the
+   kind and form on which ToObject and Equal.cast_ok part ("Unable to unify Some (CdKind KPlace true CRErr) with
+   None"), or the helper and the guard found ("Some (B "OnObject", Some GNilOnly)") *)
+Theorem C20_walk_views_conv_first_bad :
+  struct_conv_first_bad AP.Gen.Layout.layout_of AP.Gen.Layout.sizeof_kind AP.Gen.Conv.reflect_convertible
+                        AP.Gen.Conv.conv_tables (B "ToObject") KObject = None.
+Proof. exact gen_object_conv_first_bad. Qed.
+Theorem C20_walk_views_guard_first_bad : helper_guard_diag gen_on_fns h_object = None.
+Proof. exact gen_object_guard_diag. Qed.
+Theorem C20_walk_views_conv_table :
+  struct_conv_ok AP.Gen.Layout.layout_of AP.Gen.Layout.sizeof_kind AP.Gen.Conv.reflect_convertible
+                 AP.Gen.Conv.conv_tables (B "ToObject") KObject = true.
+Proof. exact gen_object_conv_ok. Qed.
+Theorem C20_walk_views_guard : helper_guard_both gen_on_fns h_object = true.
+Proof. exact gen_object_guard_both. Qed.
+
+(* THE correspondence, for every conversion table satisfying [struct_conv_ok] for the conversion tofn (target kind
+   d), every guard that passes over nil members and links, every instantiation, every callback (it may answer with an
+   error at any call) and ALL lists, nested to any depth.  With [wv_members d g i] = the longest prefix of b49's
+   [kept g i] (the members the walk gets to: nested lists opened, passed-over members dropped, in order) whose members
+   To<d> accepts:
+     - PredTab.walk_views d i = (the views of those members, "To<d> accepted every member of kept g i");
+     - visit .. i tr  = [feed]: the To<d> pointers of the SAME members handed to the callback one by one on top of the
+       trace tr; the callback's error ends it with that error; otherwise the outcome is nil when the flag of
+       walk_views is true and the conversion error when it is false (the first refused member - a struct To<d> has no
+       case for, an IRI that is not nil - ends both walks; nil members and links end neither);
+     - member by member (ptr_view_rel): the member is a struct IObj _ k fs with cast_ok d k; the VIEW is
+       VI (IObj true d fs) - the whole property list shared; the POINTER in the trace is OvItem (IObj true d vf) with
+       vf = fs (k = d: the same pointer / a copy) or view_fields d k fs = Some vf (a cast: the properties at the
+       offsets of d's fields, Gen/Layout.v) *)
+Theorem C20_walk_views_is_visit : forall layout_of sizeof_kind refl ct targ cb tofn d g,
+  struct_conv_ok layout_of sizeof_kind refl ct tofn d = true -> both_guard g = true ->
+  forall i, is_item_collection i = true ->
+    PredTab.walk_views d i = (map (view_at d) (wv_members d g i), forallb (castable d) (kept g i)) /\
+    (forall tr, visit (conv_of_tables layout_of sizeof_kind refl ct) targ cb tofn g true i tr =
+                feed cb (map (ptr_of (conv_of_tables layout_of sizeof_kind refl ct) targ tofn) (wv_members d g i))
+                     (snd (PredTab.walk_views d i)) tr) /\
+    Forall (fun m => ptr_view_rel layout_of sizeof_kind d m
+                       (ptr_of (conv_of_tables layout_of sizeof_kind refl ct) targ tofn m) (view_at d m))
+           (wv_members d g i).
+Proof. exact walk_views_is_visit. Qed.
+
+(* through b49's tie, about the interpreter of the generated body: for every On.. table of the right shape whose
+   helper h passes over nil members and links, every conversion table satisfying [struct_conv_ok] for h's conversion,
+   every instantiation, every callback, every list at any depth and any fuel from on_fuel up,
+     run_on .. (fst h) i = feed cb (the To<d> pointers of wv_members d g i) (the flag of PredTab.walk_views d i) []
+   and the views of walk_views are the views of the same members, member by member related by [ptr_view_rel] *)
+Theorem C20_walk_views_is_generated_walk : forall layout_of sizeof_kind refl ct targ cb tbl h d,
+  on_shapes_ok tbl = true -> In h list_helpers -> helper_guard_both tbl h = true ->
+  struct_conv_ok layout_of sizeof_kind refl ct (snd h) d = true ->
+  exists g, struct_matches tbl h = Some g /\ both_guard g = true /\
+    forall i fuel, is_item_collection i = true -> (on_fuel i <= fuel)%nat ->
+      run_on (conv_of_tables layout_of sizeof_kind refl ct) targ cb tbl fuel (fst h) i =
+      feed cb (map (ptr_of (conv_of_tables layout_of sizeof_kind refl ct) targ (snd h)) (wv_members d g i))
+           (snd (PredTab.walk_views d i)) [] /\
+      fst (PredTab.walk_views d i) = map (view_at d) (wv_members d g i) /\
+      Forall (fun m => ptr_view_rel layout_of sizeof_kind d m
+                         (ptr_of (conv_of_tables layout_of sizeof_kind refl ct) targ (snd h) m) (view_at d m))
+             (wv_members d g i).
+Proof. exact walk_views_is_generated_walk. Qed.
+
+(* b57's C20_not_empty_list_table_tie, now about the generated OnObject body: the members whose notEmptyObject decides
+   NotEmpty of a list are the members whose ToObject pointers the interpreter of the generated body hands, in this
+   order, to a callback that never answers with an error *)
+Theorem C20_not_empty_list_generated_walk : forall layout_of sizeof_kind refl ct ptbl otbl,
+  pred_table_ok ptbl = true -> on_shapes_ok otbl = true -> helper_guard_both otbl h_object = true ->
+  struct_conv_ok layout_of sizeof_kind refl ct (B "ToObject") KObject = true ->
+  exists g, struct_matches otbl h_object = Some g /\
+    forall p lo, is_nil (IItems p lo) = false -> views_typed (IItems p lo) = true ->
+      sem_pred ptbl (B "NotEmpty") (IItems p lo)
+        = Ok (ne_after true (map (view_at KObject) (wv_members KObject g (IItems p lo)))) /\
+      forall targ fuel, (on_fuel (IItems p lo) <= fuel)%nat ->
+        fst (run_on (conv_of_tables layout_of sizeof_kind refl ct) targ cb_ok otbl fuel (B "OnObject") (IItems p lo))
+          = map (ptr_of (conv_of_tables layout_of sizeof_kind refl ct) targ (B "ToObject")) (wv_members KObject g (IItems p lo)).
+Proof. exact not_empty_list_generated_walk. Qed.
+
+(* non-vacuity, on the tables of this run: og_list (typed nil, untyped nil, a link, a "-" IRI, a nested list with an
+   actor, a list of nil IRIs, three objects): both walks get to the same three members, the actor seen as an Object
+   by both (its two properties lie in Object's prefix); a list in which an IRI that is not nil stands between two
+   objects: both stop there - the view list holds the first object, the flag is false, the generated body answers
+   with the error after one call; a Place member: the view shares the WHOLE property list, the pointer of the
+   conversion holds what Object's layout shows of it *)
+Example C20_walk_views_example :
+  wv_members KObject GNilOrLink og_list = [og_obj "a"; og_actor "b"; og_obj "c"] /\
+  PredTab.walk_views KObject og_list =
+    ([VI (og_obj "a"); VI (IObj true KObject [(F_ID, FStr (B "b")); (F_Type, FStr (B "Person"))]); VI (og_obj "c")], true) /\
+  on_gen t_object cb_ok (B "OnObject") og_list =
+    ([OvItem (og_obj "a"); OvItem (IObj true KObject [(F_ID, FStr (B "b")); (F_Type, FStr (B "Person"))]); OvItem (og_obj "c")],
+     Ok [OvNil]) /\
+  (let l := IItems false (Some [og_obj "a"; IIri false (B "https://example.com/i"); og_obj "c"]) in
+   PredTab.walk_views KObject l = ([VI (og_obj "a")], false) /\
+   on_gen t_object cb_ok (B "OnObject") l = ([OvItem (og_obj "a")], Ok [OvErr]) /\
+   on_gen t_object cb_err_at_2 (B "OnObject") og_list
+     = feed cb_err_at_2 (map (ptr_of gen_conv t_object (B "ToObject")) (wv_members KObject GNilOrLink og_list)) true []) /\
+  (let pl := IObj false KPlace [(F_ID, FStr (B "p")); (F_Accuracy, FFloat 1%Z)] in
+   fst (PredTab.walk_views KObject (IItems false (Some [pl]))) = [VI (IObj true KObject [(F_ID, FStr (B "p")); (F_Accuracy, FFloat 1%Z)])] /\
+   fst (on_gen t_object cb_ok (B "OnObject") (IItems false (Some [pl]))) = [OvItem (IObj true KObject [(F_ID, FStr (B "p"))])]).
+Proof. repeat split; vm_compute; reflexivity. Qed.
+
+(* ---- the list-walking helpers OUTSIDE the guard condition: OnPlace, OnProfile, OnTombstone (list_helpers; their guard
+   is whatever the table says - on the current tree links only / links only / none) and OnItem (its own template; no
+   conversion) - builder b60, Proofs/OnOtherP.v.
+   [kept_t g i]: the members a walk with ANY guard g gets to - nested lists opened, members the guard passes over
+   dropped, UNTYPED nil members dropped (the nested call answers nil at its own `if it == nil`), in order; typed nil
+   pointers stay unless the guard passes over them.  With a guard that passes over nil members it is b49's [kept]. *)
+From AP.Proofs Require Import OnOtherP.
+
+Theorem C20_on_kept_any_guard : forall g, guard_skips_nil g = true -> forall i, kept_t g i = kept g i.
+Proof. intros g H i. exact (kept_t_is_kept g H (item_size i) i (le_n _)). Qed.
+
+(* EXACTLY those members, for all eight helpers of list_helpers and every table of the right shape - no condition on
+   the guard: the trace is the converted pointers of a prefix of kept_t g i (all of it when the walk ends without an
+   error), and kept_t g i holds nothing the guard passes over, no untyped nil, no list *)
+Theorem C20_on_list_exact_any_guard : forall conv targ cb tbl, on_shapes_ok tbl = true ->
+  forall h, In h list_helpers -> forall i fuel, is_item_collection i = true -> (on_fuel i <= fuel)%nat ->
+  exists g k,
+    struct_matches tbl h = Some g /\
+    fst (run_on conv targ cb tbl fuel (fst h) i) = map (ptr_of conv targ (snd h)) (firstn k (kept_t g i)) /\
+    (snd (run_on conv targ cb tbl fuel (fst h) i) = r_nil -> k = length (kept_t g i)) /\
+    (forall m, In m (kept_t g i) -> skips g m = false /\ m <> INil /\ is_item_collection m = false).
+Proof. exact on_list_exact_any. Qed.
+
+(* a typed nil member IS handed over as a nil pointer: for every conversion table that answers the typed nil pointer of
+   each of the 14 kinds with (nil, nil) ([nil_conv_ok]; C20_on_nil_conversions evaluates it on Gen/Conv.v for the
+   conversions of all eight helpers), every table of the right shape, every helper, every list holding a typed nil
+   pointer its guard does not pass over: a walk that ends without an error has handed the callback a nil pointer.
+   (For the five helpers of on_table_ok the premise `skips g (ITNil k) = false` is never true: C20_on_list_never_nil.) *)
+Theorem C20_on_typed_nil_is_handed : forall layout_of sizeof_kind refl ct targ cb tbl, on_shapes_ok tbl = true ->
+  forall h, In h list_helpers -> nil_conv_ok layout_of sizeof_kind refl ct (snd h) = true ->
+  forall g, struct_matches tbl h = Some g ->
+  forall p l k fuel, In (ITNil k) l -> skips g (ITNil k) = false -> (on_fuel (IItems p (Some l)) <= fuel)%nat ->
+    snd (run_on (conv_of_tables layout_of sizeof_kind refl ct) targ cb tbl fuel (fst h) (IItems p (Some l))) = r_nil ->
+    existsb arg_is_nil (fst (run_on (conv_of_tables layout_of sizeof_kind refl ct) targ cb tbl fuel (fst h) (IItems p (Some l)))) = true.
+Proof. exact typed_nil_is_handed. Qed.
+
+Theorem C20_on_nil_conversions :
+  forallb (fun h => nil_conv_ok AP.Gen.Layout.layout_of AP.Gen.Layout.sizeof_kind AP.Gen.Conv.reflect_convertible
+                                AP.Gen.Conv.conv_tables (snd h)) list_helpers = true.
+Proof. exact gen_nil_conv_ok. Qed.
+
+(* OnItem: the body of this run has the shape `if it == nil ..; if !IsItemCollection(it) { return fn(it) }; return
+   OnItemCollection(it, func(col) { for _, it := range ( *col) { guard; recurse } })` (any guard; today: none) ... *)
+Theorem C20_on_item_table : item_diag gen_on_fns = None.     (* when it fails the message shows the body found *)
+Proof. vm_compute. reflexivity. Qed.
+
+(* ... and for every table in which it has, on every list the callback is handed the MEMBERS THEMSELVES, those of
+   kept_t g i, in order, up to the callback's first error: a typed nil member as the nil pointer it is *)
+Theorem C20_on_item_exact : forall conv targ cb tbl g, on_shapes_ok tbl = true -> item_matches tbl = Some g ->
+  forall i fuel, is_item_collection i = true -> (on_fuel i <= fuel)%nat ->
+  exists k,
+    fst (run_on conv targ cb tbl fuel n_OnItem i) = map OvItem (firstn k (kept_t g i)) /\
+    (snd (run_on conv targ cb tbl fuel n_OnItem i) = r_nil -> k = length (kept_t g i)) /\
+    (forall m, In m (kept_t g i) -> skips g m = false /\ m <> INil /\ is_item_collection m = false).
+Proof. exact on_item_exact. Qed.
+
+Theorem C20_on_item_typed_nil : forall conv targ cb tbl g, on_shapes_ok tbl = true -> item_matches tbl = Some g ->
+  forall p l k fuel, In (ITNil k) l -> skips g (ITNil k) = false -> (on_fuel (IItems p (Some l)) <= fuel)%nat ->
+    snd (run_on conv targ cb tbl fuel n_OnItem (IItems p (Some l))) = r_nil ->
+    In (OvItem (ITNil k)) (fst (run_on conv targ cb tbl fuel n_OnItem (IItems p (Some l)))).
+Proof. exact on_item_typed_nil. Qed.
+
+(* non-vacuity on the tables of this run, stated so that it holds before and after a repair of these loops: on a list
+   [typed nil of the helper's kind; untyped nil; a struct; a nested list [typed nil; a struct value]] each of OnPlace,
+   OnProfile, OnTombstone hands over exactly the pointers of kept_t g of the list, g the guard read off its body (today:
+   nil pointer, struct, nil pointer, struct - the untyped nil is not handed over), and ends without an error; OnItem
+   hands over the members themselves; OnItem either passes over nil members or hands its callback the typed nil pointer
+   of b49's witness ItemCollection{nil pointer to Object} (today: the latter); what kept_t is under no guard and under
+   the IsNil guard *)
+Definition on_other_list (d : kind) : item :=
+  IItems false (Some [ITNil d; INil; IObj true d [(F_ID, FStr (B "a"))];
+                      IItems true (Some [ITNil d; IObj false d [(F_ID, FStr (B "b"))]])]).
+Example C20_on_other_list_example :
+  Forall (fun h => match struct_matches gen_on_fns h, to_target (snd h) with
+                   | Some g, Some d =>
+                       on_gen t_object cb_ok (fst h) (on_other_list d)
+                       = (map (ptr_of gen_conv t_object (snd h)) (kept_t g (on_other_list d)), Ok [OvNil])
+                   | _, _ => False
+                   end) other_list_helpers /\
+  match item_matches gen_on_fns with
+  | Some g => on_gen t_object cb_ok n_OnItem (on_other_list KObject) = (map OvItem (kept_t g (on_other_list KObject)), Ok [OvNil])
+  | None => False
+  end /\
+  match item_matches gen_on_fns with
+  | Some g => guard_skips_nil g || existsb arg_is_nil (fst (on_gen t_object cb_ok n_OnItem on_witness))
+  | None => false
+  end = true /\
+  kept_t GNone (on_other_list KPlace)
+    = [ITNil KPlace; IObj true KPlace [(F_ID, FStr (B "a"))]; ITNil KPlace; IObj false KPlace [(F_ID, FStr (B "b"))]] /\
+  kept_t GNilOnly (on_other_list KPlace) = [IObj true KPlace [(F_ID, FStr (B "a"))]; IObj false KPlace [(F_ID, FStr (B "b"))]].
+Proof. split; [repeat constructor; vm_compute; reflexivity|]. repeat split; vm_compute; reflexivity. Qed.
